@@ -123,6 +123,12 @@ def gen_case(world, tier, prop):
       return {'share': rng.choice(cont_ids)}
     if r < 0.80:
       return {'hostile': 1}
+    if r < 0.84 and depth >= 1:
+      # a filled TaggedValue placeholder INSIDE a container (as a direct argument
+      # it would be unwrapped on assignment): builds to its value's built object
+      inner = ({'share': node_ids[-1 - min(len(node_ids) - 1, int(rng.random() ** 2 * len(node_ids)))]}
+               if node_ids and rng.random() < 0.7 else token())
+      return {'tv': {'tags': [rng.choice(['T0', 'T1', 'U0'])], 'value': inner}}
     if depth >= 2:
       return token()
     kind = rng.choice(['list', 'list', 'tuple', 'dict', 'box', 'nt']
@@ -379,6 +385,9 @@ def mirror(mv, bv, mapping, errs, path='$'):
       for name, sub in ba.arguments.items():
         got = rec.args.get(name, None)
         mirror(sub, got, mapping, errs, f'{path}.{name}')
+    elif mv.btype == 'TaggedValueCls':
+      if 'value' in mv.named:
+        mirror(mv.named['value'], bv, mapping, errs, f'{path}.value')
     elif mv.btype == 'Partial':
       if not isinstance(bv, functools.partial):
         errs.append(f'{path}: Partial did not build a functools.partial')
